@@ -240,7 +240,10 @@ def _run_one(prog: Program, report: Report, g) -> int:
             return 1
         targets = find_targets(v, g.kind, g.target, arms_fallback=isinstance(g, Gate))
         if len(targets) < g.min and not (g.min == 0):
-            raise AnalysisError(f"{g.rule}: {g.fn}: target /{g.target}/ found {len(targets)} time(s), expected at least {g.min} (table needs maintenance)")
+            from ..gates import new_helpers
+
+            hint = f"; the function now calls {[h.name for h in new_helpers(v)]}, which the reviewed tree did not have" if new_helpers(v) else ""
+            raise AnalysisError(f"{g.rule}: {g.fn}: target /{g.target}/ found {len(targets)} time(s), expected at least {g.min} (table needs maintenance{hint})")
         if isinstance(g, Gate):
             from ..gates import returns_reshaped
 
@@ -332,6 +335,20 @@ def _run_one(prog: Program, report: Report, g) -> int:
                         elif isinstance(t, ast.Assign) and len(t.targets) == 1:
                             texts.append(f"{one_line(t.targets[0])} = {rv}")
                 loose = None
+                if not any(rx.search(x) for x in texts) and g.kind == "ret":
+                    from ..gates import new_helpers, view as _view
+
+                    tv2 = t.value if isinstance(t, ast.Return) else t
+                    hs = [h for h in new_helpers(v) if isinstance(tv2, ast.Call) and isinstance(tv2.func, ast.Name) and tv2.func.id == h.name]
+                    if hs:
+                        # the returned value is produced by a helper the reviewed tree did not have: its returns carry the form
+                        hv = _view(v.prog, hs[0].key)
+                        rets = [r for r in hv.find(lambda n: isinstance(n, ast.Return))]
+                        rtexts = [[one_line(r.value) if r.value is not None else "None"] + [one_line(hv.res.expr(r.value, d)) for d in (1, 2, 3) if r.value is not None] for r in rets]
+                        if rets and all(any(rx.search(x) for x in tx) for tx in rtexts):
+                            report.ob(g.rule, g.fn, f"{g.why.split(';')[0]}: [{text[:60]}] returns through the extracted helper {hs[0].name}, whose returns have the required form")
+                            continue
+                        raise AnalysisError(f"{g.rule}: {g.fn}: `{text[:60]}` is produced by {hs[0].name}, a helper the reviewed tree did not have, whose returns found 0 time(s) in the required form (restructured)")
                 if not any(rx.search(x) for x in texts):
                     loose = loosen(v, g.form)
                 if any(rx.search(x) for x in texts) or (loose is not None and any(re.search(loose, x) for x in texts)):
@@ -496,6 +513,23 @@ def _must(report: Report, v: FnView, g: Must) -> None:
     if not branch:
         raise AnalysisError(f"{g.rule}: {g.fn}: no statement is evaluated under {g.under} (branch vanished; table needs maintenance)")
     hit = [s for s in branch if rx.search(one_line(s))]
+    if not hit and (loose := loosen(v, g.contains)) is not None:
+        hit = [s for s in branch if re.search(loose, one_line(s))]
+    if not hit:
+        from ..gates import new_helpers, view as _view
+
+        for h in new_helpers(v):
+            # the statement moved into a helper the reviewed tree did not have: it must be there, and
+            # the helper must be called from the branch
+            called = [s for s in branch if any(isinstance(c, ast.Call) and isinstance(c.func, ast.Name) and c.func.id == h.name for c in ast.walk(s))]
+            if not called:
+                continue
+            hv = _view(v.prog, h.key)
+            inner = [s for s in hv.find(lambda n: isinstance(n, SIMPLE)) if rx.search(one_line(s)) or ((lo := loosen(hv, g.contains)) is not None and re.search(lo, one_line(s)))]
+            if inner:
+                report.ob(g.rule, g.fn, f"{g.why.split(';')[0]}: the branch under {g.under} calls the extracted helper {h.name}, which contains [{one_line(inner[0])[:60]}]")
+                return
+            raise AnalysisError(f"{g.rule}: {g.fn}: the branch under {g.under} now calls {h.name}, a helper the reviewed tree did not have; /{g.contains}/ found 0 time(s) in either (restructured)")
     if hit:
         report.ob(g.rule, g.fn, f"{g.why.split(';')[0]}: the branch under {g.under} contains [{one_line(hit[0])[:70]}]")
     else:
